@@ -39,6 +39,10 @@ FMeasure(P, Rc, b2) ==
 RECURSIVE RSumSeq(_)
 RSumSeq(s) == IF s = <<>> THEN <<0, 1>> ELSE RAdd(Head(s), RSumSeq(Tail(s)))
 
+(* sum of a rational-valued function over a finite subset of its domain *)
+RECURSIVE RSumOver(_, _)
+RSumOver(f, S) == IF S = {} THEN <<0, 1>> ELSE LET x == CHOOSE x \in S : TRUE IN RAdd(f[x], RSumOver(f, S \ {x}))
+
 RECURSIVE SumSeq(_)
 SumSeq(s) == IF s = <<>> THEN 0 ELSE Head(s) + SumSeq(Tail(s))
 
